@@ -268,7 +268,7 @@ func subdecCloseHammer(r *tr.Run, rounds int, strict bool) {
 				}
 			}()
 		}
-		deadline := time.Now().Add(HangBound / 10)
+		deadline := time.Now().Add(HangBound / 2) // (paid once: the hammer ends at the first round in which a call stays away)
 		for g.Arrivals() < 2 && time.Now().Before(deadline) {
 			runtime.Gosched()
 		}
